@@ -367,7 +367,7 @@ func (s *wscenario) finish(base int) (op string, impl string) {
 	sort.Ints(pending)
 	leak := "-"
 	if closeState == "ret" {
-		n := settle(base, time.Second)
+		n := settle(base, censusBound())
 		s.rec.add("lk/%d", n)
 		leak = strconv.Itoa(n)
 	}
